@@ -607,7 +607,8 @@ func (c *Context) GetFunction(name string) (*BuiltinFunction, error) {
 		return nil, fmt.Errorf(`"%s" is not a function`, name)
 	}
 	// Value exists, but unable to access in current scope
-	if obj.Value.Scopes&c.curMode == 0 {
+	// (in a subroutine used in several scopes: in every one of them, as for variables)
+	if obj.Value.Scopes&c.curMode != c.curMode {
 		return nil, fmt.Errorf(
 			`function "%s" is not available in scope %s\nSee reference documentation: %s`,
 			name, ScopeString(c.curMode), obj.Value.Reference,
